@@ -48,7 +48,10 @@ package c06
 
 import (
 	"fmt"
+	"runtime"
 	"strings"
+	"sync"
+	"sync/atomic"
 
 	"github.com/buildbarn/bb-storage/pkg/blobstore/local"
 	"github.com/prometheus/client_golang/prometheus"
@@ -59,13 +62,56 @@ import (
 
 // ---------------------------------------------------------------- device
 
+// faultPlan makes ONE device call of ONE operation fail: the n-th ReadAt
+// (or WriteAt) the index issues during that operation returns err and
+// transfers nothing. A failed write leaves the medium untouched (torn writes
+// are outside the property: they belong to the crash properties).
+type faultPlan struct {
+	write bool
+	n     int // 1-based call number within the operation
+	err   error
+}
+
+func (f *faultPlan) String() string {
+	if f == nil {
+		return ""
+	}
+	if f.write {
+		return fmt.Sprintf("~w%d", f.n)
+	}
+	return fmt.Sprintf("~r%d", f.n)
+}
+
+// memDevice is a byte-slice block device. The fault fields are only written
+// by the (single-threaded) harness around one call into the index; while
+// lookups run concurrently they are only read (armed == false).
 type memDevice struct {
 	data []byte
+
+	armed     bool
+	suspended bool // a read of the harness itself (decorator statistics)
+	plan      faultPlan
+	reads     int // ReadAt calls of the index since arm()
+	writes    int
+	fired     bool
 }
+
+func (d *memDevice) arm(f *faultPlan) {
+	d.armed, d.suspended, d.plan, d.reads, d.writes, d.fired = true, false, *f, 0, 0, false
+}
+
+func (d *memDevice) disarm() { d.armed = false }
 
 func (d *memDevice) ReadAt(p []byte, off int64) (int, error) {
 	if off < 0 || off+int64(len(p)) > int64(len(d.data)) {
 		return 0, fmt.Errorf("memDevice: read [%d,%d) outside device of %d bytes", off, off+int64(len(p)), len(d.data))
+	}
+	if d.armed && !d.suspended {
+		d.reads++
+		if !d.plan.write && d.reads == d.plan.n {
+			d.fired = true
+			return 0, d.plan.err
+		}
 	}
 	return copy(p, d.data[off:]), nil
 }
@@ -73,6 +119,13 @@ func (d *memDevice) ReadAt(p []byte, off int64) (int, error) {
 func (d *memDevice) WriteAt(p []byte, off int64) (int, error) {
 	if off < 0 || off+int64(len(p)) > int64(len(d.data)) {
 		return 0, fmt.Errorf("memDevice: write [%d,%d) outside device of %d bytes", off, off+int64(len(p)), len(d.data))
+	}
+	if d.armed && !d.suspended {
+		d.writes++
+		if d.plan.write && d.writes == d.plan.n {
+			d.fired = true
+			return 0, d.plan.err
+		}
 	}
 	return copy(d.data[off:], p), nil
 }
@@ -136,7 +189,16 @@ type budgetExceeded struct{ reads, writes, budget int }
 type probe struct {
 	inner   local.LocationRecordArray
 	size    int
-	written []bool // slot has been written at least once (statistics only)
+	written []bool     // slot has been written at least once (statistics only)
+	dev     *memDevice // nil for the in-memory array
+
+	// passthrough: forward without touching any counter (set while lookups
+	// run concurrently; the counters are not safe for concurrent use).
+	passthrough bool
+
+	// what the slot held whose read was made to fail (statistics only)
+	faultOnValid bool
+	faultKey     local.Key
 
 	budget           int
 	reads, writes    int
@@ -157,6 +219,17 @@ func (p *probe) begin(budget int) {
 	p.invalidSeen, p.invalidAt, p.invalidReleased, p.readAfterInvalid = false, 0, false, false
 	p.displaced, p.updated, p.inserted = 0, 0, 0
 	p.nonMonotonic, p.outOfRange = "", ""
+	p.faultOnValid = false
+}
+
+// peek reads a slot for the decorator's own statistics: never faulted, never
+// counted as a device call of the index.
+func (p *probe) peek(index int) (local.LocationRecord, error) {
+	if p.dev != nil && p.dev.armed {
+		p.dev.suspended = true
+		defer func() { p.dev.suspended = false }()
+	}
+	return p.inner.Get(index)
 }
 
 func relOlder(a, b local.Location) bool {
@@ -164,6 +237,9 @@ func relOlder(a, b local.Location) bool {
 }
 
 func (p *probe) Get(index int) (local.LocationRecord, error) {
+	if p.passthrough {
+		return p.inner.Get(index)
+	}
 	p.reads++
 	if p.reads > p.budget {
 		panic(budgetExceeded{p.reads, p.writes, p.budget})
@@ -175,11 +251,17 @@ func (p *probe) Get(index int) (local.LocationRecord, error) {
 	if p.invalidSeen {
 		p.readAfterInvalid = true
 	}
+	firedBefore := p.dev != nil && p.dev.fired
 	r, err := p.inner.Get(index)
 	if err == local.ErrLocationRecordInvalid && !p.invalidSeen {
 		p.invalidSeen = true
 		p.invalidAt = p.reads - 1
 		p.invalidReleased = p.written[index]
+	}
+	if p.dev != nil && p.dev.fired && !firedBefore {
+		if held, herr := p.peek(index); herr == nil {
+			p.faultOnValid, p.faultKey = true, held.RecordKey.Key
+		}
 	}
 	return r, err
 }
@@ -193,7 +275,7 @@ func (p *probe) Put(index int, r local.LocationRecord) error {
 		p.outOfRange = fmt.Sprintf("slot %d written in a table of %d slots", index, p.size)
 		return nil
 	}
-	old, err := p.inner.Get(index)
+	old, err := p.peek(index)
 	if err == nil {
 		if old.RecordKey != r.RecordKey {
 			p.displaced++
@@ -416,21 +498,35 @@ func (c config) String() string {
 }
 
 type opRec struct {
-	kind string // put, get, release, alloc
-	key  int
-	l    loc
-	d    uint64
+	kind  string // put, get, release, alloc
+	key   int
+	l     loc
+	d     uint64
+	fault *faultPlan // injected device fault (block device only)
+	fired bool       // the fault was reached
+	err   error      // what the call returned
 }
 
 func (o opRec) String() string {
+	tail := ""
+	if o.fault != nil {
+		tail = o.fault.String()
+		if !o.fired {
+			tail += "(not reached)"
+		} else if o.err != nil {
+			tail += "=err"
+		} else {
+			tail += "=ok"
+		}
+	}
 	switch o.kind {
 	case "put":
 		if o.d > 0 {
-			return fmt.Sprintf("put(k%d,%s)!%d", o.key, o.l, o.d)
+			return fmt.Sprintf("put(k%d,%s)!%d%s", o.key, o.l, o.d, tail)
 		}
-		return fmt.Sprintf("put(k%d,%s)", o.key, o.l)
+		return fmt.Sprintf("put(k%d,%s)%s", o.key, o.l, tail)
 	case "get":
-		return fmt.Sprintf("get(k%d)", o.key)
+		return fmt.Sprintf("get(k%d)%s", o.key, tail)
 	}
 	return o.kind
 }
@@ -444,6 +540,11 @@ type caseStats struct {
 	equalLocOtherKey, samePutAgain, olderThanVisible                                     int
 	fallbackOlder, fallbackNothing, ownPutLost, hiddenDiscard                            int
 	foundAtLaterAttempt                                                                  int
+	// device faults
+	faultPutRead, faultPutWrite, faultPutNotReached, faultPutSwallowed int
+	faultPutFailedKeptPrevious, faultPutFailedStoredNew                int
+	faultPutFailedLostOther, faultPutReadOnLiveOtherKey                int
+	faultGetError, faultGetAnswered, faultGetNotReached                int
 	// deviations from the documented mechanism (counted, never asserted)
 	mechGetOverLimit, mechGetReadAfterInvalid, mechGetWrote, mechGetNoRead int
 	mechPutOverLimit, mechPutReadAfterInvalid, mechPutNotNewer, mechAudit  int
@@ -504,7 +605,7 @@ func newHarness(f fataler, cfg config, keys []local.Key, initialSeeds []uint64, 
 	if cfg.backend == "blockdev" {
 		h.dev = &memDevice{data: make([]byte, cfg.size*local.BlockDeviceBackedLocationRecordSize)}
 	}
-	h.probe = &probe{inner: newArray(cfg, h.blocks, h.dev), size: cfg.size, written: make([]bool, cfg.size)}
+	h.probe = &probe{inner: newArray(cfg, h.blocks, h.dev), size: cfg.size, written: make([]bool, cfg.size), dev: h.dev}
 	h.klm = local.NewHashingKeyLocationMap(h.probe, cfg.size, cfg.hashInit, cfg.getAttempts, cfg.putAttempts, storageType)
 	h.mr = readerFor(storageType)
 	h.mr.last = h.mr.read() // an earlier, failed case may have left it stale
@@ -607,13 +708,36 @@ func (h *harness) guarded(what func() string, fn func()) {
 	fn()
 }
 
-// lookup performs one observed Get and applies the soundness clauses.
+// lookup performs one observed, fault-free Get and applies the soundness
+// clauses.
 func (h *harness) lookup(ki int) res {
+	r, _, _ := h.lookupF(ki, nil)
+	return r
+}
+
+// lookupF is lookup with an optional device fault. When the fault was reached
+// and the call answered with an error (ANY error), errored is true and
+// nothing else is asserted; an answer without error is held to the soundness
+// clauses whether or not a fault was injected.
+func (h *harness) lookupF(ki int, f *faultPlan) (r res, fired, errored bool) {
 	p := h.probe
 	p.begin(h.hangGuard())
 	var rl local.Location
 	var err error
-	h.guarded(func() string { return fmt.Sprintf("Get(k%d)", ki) }, func() { rl, err = h.klm.Get(h.keys[ki]) })
+	if f != nil {
+		h.dev.arm(f)
+	}
+	h.guarded(func() string { return fmt.Sprintf("Get(k%d)%s", ki, f) }, func() { rl, err = h.klm.Get(h.keys[ki]) })
+	if f != nil {
+		h.dev.disarm()
+		fired = h.dev.fired
+		if fired && err != nil {
+			if p.outOfRange != "" {
+				h.fail("Get(k%d): %s", ki, p.outOfRange)
+			}
+			return res{}, true, true
+		}
+	}
 	if p.outOfRange != "" {
 		h.fail("Get(k%d): %s", ki, p.outOfRange)
 	}
@@ -648,22 +772,22 @@ func (h *harness) lookup(ki int) res {
 		if p.reads == 0 {
 			h.st.mechGetNoRead++
 		}
-		return res{}
+		return res{}, fired, false
 	}
 	if p.reads >= 2 {
 		h.st.foundAtLaterAttempt++
 	}
 	if rl.BlockIndex < 0 || rl.BlockIndex >= h.blocks.live() {
-		h.fail("lookup soundness: Get(k%d) returned block index %d with %d live blocks", ki, rl.BlockIndex, h.blocks.live())
+		h.fail("lookup soundness: Get(k%d)%s returned block index %d with %d live blocks", ki, f, rl.BlockIndex, h.blocks.live())
 	}
 	l := loc{blk: rl.BlockIndex + h.blocks.released, off: rl.OffsetBytes, size: rl.SizeBytes}
 	if !h.isStored(ki, l) {
 		if kj := h.storedForOther(ki, l); kj >= 0 {
-			h.fail("lookup soundness: Get(k%d) returned %s, which was stored for key k%d and never for k%d (stored for k%d: %v)", ki, l, kj, ki, ki, h.stored[ki])
+			h.fail("lookup soundness: Get(k%d)%s returned %s, which was stored for key k%d and never for k%d (stored for k%d: %v)", ki, f, l, kj, ki, ki, h.stored[ki])
 		}
-		h.fail("lookup soundness: Get(k%d) returned %s, which was never stored for it (stored: %v)", ki, l, h.stored[ki])
+		h.fail("lookup soundness: Get(k%d)%s returned %s, which was never stored for it (stored: %v)", ki, f, l, h.stored[ki])
 	}
-	return res{ok: true, l: l}
+	return res{ok: true, l: l}, fired, false
 }
 
 func (h *harness) observe(into []res) {
@@ -697,11 +821,30 @@ func (h *harness) swap() { h.cur, h.nxt = h.nxt, h.cur }
 // and the metrics were not read around this very call; the caller then
 // restores the previous state and repeats the call with exactNext set.
 func (h *harness) put(ki int, rel local.Location) (retryExact bool) {
+	return h.putF(ki, rel, nil)
+}
+
+// putF is put with an optional device fault (block device only). Clauses
+// under a fault (the lookups that judge the call run without faults):
+//
+//   - other keys: exactly as without a fault (changed keys had an entry, fall
+//     back to an older location or nothing, the lost entry is not newer than
+//     the entry being stored), and their number is bounded by the discards
+//     reported for this call, plus ONE if Put returned an error (see
+//     errorAllowance);
+//   - the stored key: max(previous, stored) as always or, if Put returned an
+//     error, alternatively the previous result; anything else counts against
+//     the discard bound like a changed other key;
+//   - Put may only return an error when a fault was reached.
+//
+// The reference model of the stored key follows whichever of the accepted
+// outcomes is observed.
+func (h *harness) putF(ki int, rel local.Location, f *faultPlan) (retryExact bool) {
 	if rel.BlockIndex < 0 || rel.BlockIndex >= h.blocks.live() {
 		panic("harness: generated a location outside the live window")
 	}
 	l := loc{blk: rel.BlockIndex + h.blocks.released, off: rel.OffsetBytes, size: rel.SizeBytes}
-	h.hist = append(h.hist, opRec{kind: "put", key: ki, l: l})
+	h.hist = append(h.hist, opRec{kind: "put", key: ki, l: l, fault: f})
 	before := h.cur
 	h.st.puts++
 
@@ -728,7 +871,16 @@ func (h *harness) put(ki int, rel local.Location) (retryExact bool) {
 	p := h.probe
 	p.begin(h.hangGuard())
 	var err error
-	h.guarded(func() string { return fmt.Sprintf("Put(k%d,%s)", ki, l) }, func() { err = h.klm.Put(h.keys[ki], rel) })
+	fired := false
+	if f != nil {
+		h.dev.arm(f)
+	}
+	h.guarded(func() string { return fmt.Sprintf("Put(k%d,%s)%s", ki, l, f) }, func() { err = h.klm.Put(h.keys[ki], rel) })
+	if f != nil {
+		h.dev.disarm()
+		fired = h.dev.fired
+		h.hist[len(h.hist)-1].fired, h.hist[len(h.hist)-1].err = fired, err
+	}
 	m1 := m0
 	if exact {
 		m1 = h.mr.read()
@@ -737,11 +889,28 @@ func (h *harness) put(ki int, rel local.Location) (retryExact bool) {
 	d := m1.sub(m0)
 	discards := d.discards()
 	h.hist[len(h.hist)-1].d = discards
-	if err != nil {
-		h.fail("Put(k%d,%s) failed with %v", ki, l, err)
+	if err != nil && !fired {
+		h.fail("Put(k%d,%s) failed with %v although no device call failed", ki, l, err)
 	}
 	if p.outOfRange != "" {
 		h.fail("Put(k%d,%s): %s", ki, l, p.outOfRange)
+	}
+	failed := err != nil
+	if f != nil {
+		switch {
+		case !fired:
+			h.st.faultPutNotReached++
+		case f.write:
+			h.st.faultPutWrite++
+		default:
+			h.st.faultPutRead++
+			if p.faultOnValid && p.faultKey != h.keys[ki] {
+				h.st.faultPutReadOnLiveOtherKey++
+			}
+		}
+		if fired && !failed {
+			h.st.faultPutSwallowed++
+		}
 	}
 	// mechanism of the unchanged code, counted only (see the file comment);
 	// the property-level form of oldest-first displacement is asserted
@@ -777,8 +946,16 @@ func (h *harness) put(ki int, rel local.Location) (retryExact bool) {
 	if !want.ok || older(want.l, l) {
 		want = res{ok: true, l: l}
 	}
-	affected := 0
+	affected, affectedOthers := 0, 0
 	ownDeviates := after[ki] != want
+	if ownDeviates && failed && after[ki] == before[ki] {
+		// Put reported failure and the key still resolves to what it
+		// resolved to before: the entry was not stored.
+		ownDeviates = false
+		h.st.faultPutFailedKeptPrevious++
+	} else if failed && !ownDeviates {
+		h.st.faultPutFailedStoredNew++
+	}
 	if ownDeviates {
 		affected++
 		h.st.ownPutLost++
@@ -789,6 +966,7 @@ func (h *harness) put(ki int, rel local.Location) (retryExact bool) {
 			continue
 		}
 		affected++
+		affectedOthers++
 		if !before[kx].ok {
 			h.fail("Put(k%d,%s) made Get(k%d) change from NOT_FOUND to %s", ki, l, kx, after[kx])
 		}
@@ -807,7 +985,21 @@ func (h *harness) put(ki int, rel local.Location) (retryExact bool) {
 	if !exact && affected > 0 {
 		return true
 	}
-	if uint64(affected) > discards {
+	// errorAllowance: a Put that RETURNS AN ERROR has told its caller that
+	// the operation was cut short; the unchanged code then loses the one
+	// record it had displaced and was carrying to its next slot (it is
+	// older than the entry being stored) without counting a discard. That
+	// one key is tolerated; a Put that returns nil gets no allowance.
+	// It covers another key only: the stored key itself must resolve to
+	// one of the two accepted outcomes (or a discard must be reported).
+	allowance := uint64(0)
+	if failed && affectedOthers > 0 {
+		allowance = 1
+		if uint64(affected) > discards {
+			h.st.faultPutFailedLostOther++
+		}
+	}
+	if uint64(affected) > discards+allowance {
 		var sb strings.Builder
 		for kx := range h.keys {
 			if kx == ki && ownDeviates {
@@ -816,15 +1008,16 @@ func (h *harness) put(ki int, rel local.Location) (retryExact bool) {
 				fmt.Fprintf(&sb, " k%d: %s -> %s;", kx, before[kx], after[kx])
 			}
 		}
-		h.fail("silent loss: Put(k%d,%s) changed the lookup result of %d key(s) in a way only a discard explains, but the metrics report %d discard(s) for this call (outcome deltas %+v):%s",
-			ki, l, affected, discards, d, sb.String())
+		h.fail("silent loss: Put(k%d,%s)%s (returned %v) changed the lookup result of %d key(s) in a way only a discard explains, but the metrics report %d discard(s) for this call (outcome deltas %+v):%s",
+			ki, l, f, err, affected, discards, d, sb.String())
 	}
 	if discards > 0 && affected == 0 {
 		h.st.hiddenDiscard++
 	}
 
 	// reference model
-	if ownDeviates {
+	if ownDeviates || failed {
+		// after a failed Put either accepted outcome becomes the model
 		h.best[ki] = after[ki]
 	} else if !h.best[ki].ok || older(h.best[ki].l, l) {
 		h.best[ki] = res{ok: true, l: l}
@@ -892,11 +1085,30 @@ func (h *harness) alloc(seed uint64) {
 }
 
 // get is an explicit lookup operation of the generated sequence.
-func (h *harness) get(ki int) {
-	h.hist = append(h.hist, opRec{kind: "get", key: ki})
+func (h *harness) get(ki int) { h.getF(ki, nil) }
+
+// getF is get with an optional device read fault: a lookup during which a
+// device read failed must answer with an error (any) or with a sound result
+// (clause (1): a location stored for exactly that key in a live block);
+// either way it changes no lookup result.
+func (h *harness) getF(ki int, f *faultPlan) {
+	h.hist = append(h.hist, opRec{kind: "get", key: ki, fault: f})
 	h.st.gets++
 	before := h.cur
-	if r := h.lookup(ki); r != before[ki] {
+	r, fired, errored := h.lookupF(ki, f)
+	if f != nil {
+		h.hist[len(h.hist)-1].fired = fired
+		switch {
+		case !fired:
+			h.st.faultGetNotReached++
+		case errored:
+			h.st.faultGetError++
+			h.hist[len(h.hist)-1].err = fmt.Errorf("error")
+		default:
+			h.st.faultGetAnswered++
+		}
+	}
+	if !fired && r != before[ki] {
 		h.fail("Get(k%d) = %s, the previous Get (no operation in between) said %s", ki, r, before[ki])
 	}
 	after := h.nxt
@@ -961,4 +1173,105 @@ func (h *harness) auditDeviates() bool {
 		}
 	}
 	return false
+}
+
+// ------------------------------------------------------ concurrent lookups
+
+// concMismatch is the first deviation one goroutine saw.
+type concMismatch struct {
+	seen  bool
+	step  int
+	ki    int
+	got   res
+	err   error // an answer that is neither a location nor NOT_FOUND
+	count int
+}
+
+// concurrentLookups runs len(patterns) goroutines that do nothing but
+// lookups (goroutine g looks up patterns[g] repeats[g] times over) against
+// the current state and demands of EVERY answer that it equals the answer the
+// sequential lookup of that key gave (h.cur). Callers of KeyLocationMap.Get
+// hold a read lock only (FlatBlobAccess.Get/FindMissing,
+// HierarchicalCASBlobAccess.Get), so any number of lookups may run at once.
+//
+// Why this is sound: the property defines the result of a lookup as a
+// function of the stores, releases and reported discards that happened; a
+// lookup is none of these, so no lookup, in whatever interleaving, may change
+// a result. The clean-up the KeyLocationMap interface permits during lookups
+// concerns entries of released blocks, which are never a result. (The
+// sequential units assert the same for single lookups: "a lookup changed
+// Get(k)".) Afterwards all keys are looked up sequentially once more.
+//
+// The goroutines start behind a gate (all have been scheduled before the
+// first lookup is made) and are joined before the function returns; the
+// verdict does not depend on the interleaving for a correct index.
+func (h *harness) concurrentLookups(patterns [][]int, repeats []int) (lookups int) {
+	expected := append([]res(nil), h.cur...)
+	released := h.blocks.released
+	n := len(patterns)
+	bad := make([]concMismatch, n)
+	var ready atomic.Int32
+	var wg sync.WaitGroup
+	h.probe.passthrough = true
+	for g := 0; g < n; g++ {
+		lookups += len(patterns[g]) * repeats[g]
+		wg.Add(1)
+		go func(g int) {
+			defer wg.Done()
+			ready.Add(1)
+			for ready.Load() < int32(n) {
+				runtime.Gosched()
+			}
+			m := &bad[g]
+			step := 0
+			for r := 0; r < repeats[g]; r++ {
+				for _, ki := range patterns[g] {
+					rl, err := h.klm.Get(h.keys[ki])
+					var got res
+					var other error
+					if err == nil {
+						got = res{ok: true, l: loc{blk: rl.BlockIndex + released, off: rl.OffsetBytes, size: rl.SizeBytes}}
+					} else if status.Code(err) != codes.NotFound {
+						other = err
+					}
+					if other != nil || got != expected[ki] {
+						if !m.seen {
+							*m = concMismatch{seen: true, step: step, ki: ki, got: got, err: other}
+						}
+						m.count++
+					}
+					step++
+				}
+			}
+		}(g)
+	}
+	wg.Wait()
+	h.probe.passthrough = false
+	total := 0
+	for g := range bad {
+		total += bad[g].count
+	}
+	for g, m := range bad {
+		if !m.seen {
+			continue
+		}
+		what := fmt.Sprintf("%d of %d lookups made by %d goroutines at once deviate from the sequential answers; first in goroutine %d, its lookup #%d:", total, lookups, n, g, m.step)
+		switch {
+		case m.err != nil:
+			h.fail("concurrent lookups: %s Get(k%d) failed with %v (sequential answer %s)", what, m.ki, m.err, expected[m.ki])
+		case !m.got.ok:
+			h.fail("concurrent lookups: %s Get(k%d) = NOT_FOUND although nothing was stored, released or discarded since the sequential answer %s", what, m.ki, expected[m.ki])
+		case !h.isStored(m.ki, m.got.l) && h.storedForOther(m.ki, m.got.l) >= 0:
+			h.fail("concurrent lookups / lookup soundness: %s Get(k%d) = %s, which was stored for key k%d and never for k%d (sequential answer %s)", what, m.ki, m.got, h.storedForOther(m.ki, m.got.l), m.ki, expected[m.ki])
+		default:
+			h.fail("concurrent lookups: %s Get(k%d) = %s, the sequential answer is %s (stored for it: %v)", what, m.ki, m.got, expected[m.ki], h.stored[m.ki])
+		}
+	}
+	h.observe(h.nxt)
+	for kx := range h.keys {
+		if h.nxt[kx] != expected[kx] {
+			h.fail("concurrent lookups changed the sequential answer Get(k%d) from %s to %s", kx, expected[kx], h.nxt[kx])
+		}
+	}
+	return lookups
 }
